@@ -107,6 +107,8 @@ def efk(k):
     return d
 
 
+SK300 = {"advance_by": 72, r"EliasFano.*5build": 304, r"skeleton300": 304, r"Windows": 304, r"EliasFano.*11predecessor": 11,
+         r"scan_select|scan_scalar": 16, r"extend_with": 20, r"EliasFano.*6cursor": 16}
 PRED4 = dict(EFU)
 PRED4.update({r"EliasFano.*11predecessor": 4})
 PRED8 = dict(EFU)
@@ -151,6 +153,10 @@ PROPS["C03"] = dict(
         H("c03_cursor_adv1_n6_last300", timeout=1200, unwindset=efk(10), tier="thorough", bounds="one-step induction: adv1_n6_last300"),
         H("c03_cursor_advby_n6_last300", timeout=1200, unwindset=efk(10), tier="quick", bounds="one-step induction: advby_n6_last300"),
         H("c03_cursor_exhausted_n4_last1000", timeout=1200, unwindset=efk(8), bounds="any op after exhaustion"),
+        H("c03_cursor_skeleton300_seek", timeout=2700, unwindset=SK300, bounds="300 concrete elements, any start, seek(any t)"),
+        H("c03_cursor_skeleton300_adv1", timeout=2700, unwindset=SK300, tier="thorough", bounds="300 concrete elements, any start, advance_one"),
+        H("c03_cursor_skeleton300_advby", timeout=2700, unwindset=SK300, tier="thorough", bounds="300 concrete elements, any start, advance_by(k<=70)"),
+        H("c03_get_pred_skeleton300", timeout=2700, unwindset=SK300, tier="thorough", bounds="300 concrete elements, get(any i), predecessor(any q)"),
         H("c03_cursor0_and_empty", timeout=600, unwindset=EFU, bounds="cursor()==cursor_from(0); empty sequence"),
         H("c03_witness_must_fail", kind="witness", tier="thorough", timeout=600, unwindset=EFU),
     ],
@@ -278,6 +284,8 @@ PROPS["C13"] = dict(
         H("c13_avx2_win8_at2", timeout=900, unwindset=u13(8, 14), bounds="8 bytes (tail-only path), 6-byte window"),
         H("c13_avx2_win32_at24", timeout=1800, unwindset=u13(32, 16), tier="thorough", bounds="32 bytes exactly one chunk, 8-byte window at 24"),
         H("c13_avx2_win40_at20_w16", timeout=2700, unwindset=u13(40, 16), tier="thorough", bounds="40 bytes, 16-byte window across the chunk boundary"),
+        H("c13_avx2_win66_at28", timeout=1800, unwindset=u13(66, 16), bounds="66 bytes, 8-byte window across the first chunk boundary, a full ASCII chunk after it"),
+        H("c13_avx2_win98_at58", timeout=2700, unwindset=u13(98, 16), tier="thorough", bounds="98 bytes, 8-byte window across the second chunk boundary"),
         H("c13_avx2_full33", timeout=2700, unwindset=u13(33, 16), tier="thorough", bounds="ALL 33-byte strings (fully symbolic)"),
         H("c13_avx2_full66", timeout=2700, unwindset=u13(66, 16), tier="thorough", bounds="ALL 66-byte strings (fully symbolic)"),
         H("c13_broadword_win40_at5_multi", timeout=1800, unwindset=u13(40, 36), tier="thorough", bounds="40 bytes multi-byte filler, 4-byte window at 5"),
@@ -542,11 +550,11 @@ PROPS["C16"] = dict(
         H("c16_spaces_n15_s0_any", timeout=1800, unwindset=U16, tier="thorough", bounds="all buffers of that length at that start; other arguments symbolic", replay="trace"),
         H("c16_spaces_n16_s16_any", timeout=1800, unwindset=U16, tier="quick", bounds="all buffers of that length at that start; other arguments symbolic", replay="trace"),
         H("c16_block_end_n40_s0_avx2", timeout=1800, unwindset=U16, tier="thorough", bounds="all buffers of that length at that start; other arguments symbolic"),
-        H("c16_block_end_n40_s3_avx2", timeout=1800, unwindset=U16, tier="quick", bounds="all buffers of that length at that start; other arguments symbolic"),
+        H("c16_block_end_n40_s3_avx2", timeout=2700, unwindset=U16, tier="thorough", bounds="all buffers of that length at that start; other arguments symbolic"),
         H("c16_block_end_n66_s1_avx2", timeout=1800, unwindset=U16, tier="thorough", bounds="all buffers of that length at that start; other arguments symbolic"),
         H("c16_block_end_n40_s0_sse2", timeout=1800, unwindset=U16, tier="thorough", bounds="all buffers of that length at that start; other arguments symbolic"),
         H("c16_block_end_n34_s2_sse2", timeout=1800, unwindset=U16, tier="quick", bounds="all buffers of that length at that start; other arguments symbolic"),
-        H("c16_block_end_n20_s0_any", timeout=1800, unwindset=U16, tier="thorough", bounds="all buffers of that length at that start; other arguments symbolic", replay="trace"),
+        H("c16_block_end_n20_s0_any", timeout=1800, unwindset=U16, tier="quick", bounds="all buffers of that length at that start; other arguments symbolic", replay="trace"),
         H("c16_block_end_n12_s12_any", timeout=1800, unwindset=U16, tier="quick", bounds="all buffers of that length at that start; other arguments symbolic", replay="trace"),
         H("c16_anchor_n40_s0_avx2", timeout=1800, unwindset=U16, tier="thorough", bounds="all buffers of that length at that start; other arguments symbolic"),
         H("c16_anchor_n40_s1_avx2", timeout=1800, unwindset=U16, tier="quick", bounds="all buffers of that length at that start; other arguments symbolic"),
@@ -559,7 +567,7 @@ PROPS["C16"] = dict(
         H("c16_classify_n40_o25_cr_any", timeout=1800, unwindset=U16, tier="quick", bounds="all buffers of that length at that start; other arguments symbolic", replay="trace"),
         H("c16_quote_n40_s3_avx2", fs="scalar-yaml", timeout=1800, unwindset=U16, tier="quick", bounds="scalar-yaml build: pure scalar kernel, same harness"),
         H("c16_spaces_n40_s5_avx2", fs="scalar-yaml", timeout=1800, unwindset=U16, tier="quick", bounds="scalar-yaml build: pure scalar kernel, same harness"),
-        H("c16_block_end_n40_s3_avx2", fs="scalar-yaml", timeout=1800, unwindset=U16, tier="quick", bounds="scalar-yaml build: pure scalar kernel, same harness"),
+        H("c16_block_end_n20_s0_any", fs="scalar-yaml", timeout=1800, unwindset=U16, tier="quick", bounds="scalar-yaml build: pure scalar kernel, same harness"),
         H("c16_anchor_n40_s1_avx2", fs="scalar-yaml", timeout=1800, unwindset=U16, tier="quick", bounds="scalar-yaml build: pure scalar kernel, same harness"),
         H("c16_witness_must_fail", kind="witness", tier="thorough", timeout=900, unwindset=U16),
     ],
@@ -586,7 +594,9 @@ PROPS["C32"] = dict(
 )
 
 U04 = {r"d_find_close|d_find_open|d_enclose|d_select0|c04_": 134, r"select_in_word_ctz|spec.*select_in_word": 66,
-       r"spec.*rank1|spec.*select1|masked": 5}
+       r"spec.*rank1|spec.*select1|masked": 5, r"find_unmatched_close_in_word": 66,
+       r"2bp10find_close(Cs|[.])|2bp9find_open(Cs|[.])|2bp7enclose(Cs|[.])": 12, r"build_bp_index|build_l[012]_index": 6,
+       r"find_close_from": 6, r"find_close_in_word_fast|word_min_excess|word_max_excess_rev": 10, r"BalancedParens.*7select0": 9}
 
 PROPS["C04"] = dict(
     module="c04",
@@ -603,15 +613,27 @@ PROPS["C04"] = dict(
         H("c04_free_len64", timeout=1800, unwindset=U04, tier="thorough", bounds="free functions, len 64"),
         H("c04_free_len63", timeout=1800, unwindset=U04, bounds="free functions, len 63"),
         H("c04_free_len1", timeout=600, unwindset=U04, bounds="free functions, len 1"),
-        H("c04_bp_owned_len100", timeout=2700, unwindset=U04, bounds="BalancedParens::new, len 100"),
-        H("c04_bp_owned_len128", timeout=2700, unwindset=U04, tier="thorough", bounds="len 128"),
-        H("c04_bp_owned_len65", timeout=2700, unwindset=U04, bounds="len 65"),
-        H("c04_bp_owned_len64", timeout=2700, unwindset=U04, tier="thorough", bounds="len 64"),
-        H("c04_bp_owned_len63", timeout=2700, unwindset=U04, tier="thorough", bounds="len 63"),
-        H("c04_bp_owned_len1", timeout=900, unwindset=U04, bounds="len 1"),
-        H("c04_bp_borrowed_len100", timeout=2700, unwindset=U04, bounds="from_words(&[u64]) with stray bits, len 100"),
-        H("c04_bp_borrowed_len65", timeout=2700, unwindset=U04, tier="thorough", bounds="borrowed, len 65"),
-        H("c04_bp_borrowed_len63", timeout=2700, unwindset=U04, tier="thorough", bounds="borrowed, len 63"),
+        H("c04_bp_close_len100", timeout=2700, unwindset=U04, tier="quick", bounds="BalancedParens close_len100, 2 arbitrary words, all p,k <= 131"),
+        H("c04_bp_derived_len100", timeout=2700, unwindset=U04, tier="quick", bounds="BalancedParens derived_len100, 2 arbitrary words, all p,k <= 131"),
+        H("c04_bp_open_len100", timeout=2700, unwindset=U04, tier="quick", bounds="BalancedParens open_len100, 2 arbitrary words, all p,k <= 131"),
+        H("c04_bp_rank_len100", timeout=2700, unwindset=U04, tier="quick", bounds="BalancedParens rank_len100, 2 arbitrary words, all p,k <= 131"),
+        H("c04_bp_close_len128", timeout=2700, unwindset=U04, tier="thorough", bounds="BalancedParens close_len128, 2 arbitrary words, all p,k <= 131"),
+        H("c04_bp_open_len128", timeout=2700, unwindset=U04, tier="thorough", bounds="BalancedParens open_len128, 2 arbitrary words, all p,k <= 131"),
+        H("c04_bp_rank_len128", timeout=2700, unwindset=U04, tier="thorough", bounds="BalancedParens rank_len128, 2 arbitrary words, all p,k <= 131"),
+        H("c04_bp_close_len65", timeout=2700, unwindset=U04, tier="quick", bounds="BalancedParens close_len65, 2 arbitrary words, all p,k <= 131"),
+        H("c04_bp_open_len65", timeout=2700, unwindset=U04, tier="thorough", bounds="BalancedParens open_len65, 2 arbitrary words, all p,k <= 131"),
+        H("c04_bp_rank_len65", timeout=2700, unwindset=U04, tier="thorough", bounds="BalancedParens rank_len65, 2 arbitrary words, all p,k <= 131"),
+        H("c04_bp_close_len64", timeout=2700, unwindset=U04, tier="thorough", bounds="BalancedParens close_len64, 2 arbitrary words, all p,k <= 131"),
+        H("c04_bp_open_len64", timeout=2700, unwindset=U04, tier="thorough", bounds="BalancedParens open_len64, 2 arbitrary words, all p,k <= 131"),
+        H("c04_bp_close_len63", timeout=2700, unwindset=U04, tier="thorough", bounds="BalancedParens close_len63, 2 arbitrary words, all p,k <= 131"),
+        H("c04_bp_rank_len63", timeout=2700, unwindset=U04, tier="thorough", bounds="BalancedParens rank_len63, 2 arbitrary words, all p,k <= 131"),
+        H("c04_bp_close_len1", timeout=2700, unwindset=U04, tier="quick", bounds="BalancedParens close_len1, 2 arbitrary words, all p,k <= 131"),
+        H("c04_bp_rank_len1", timeout=2700, unwindset=U04, tier="thorough", bounds="BalancedParens rank_len1, 2 arbitrary words, all p,k <= 131"),
+        H("c04_bp_borrowed_close_len100", timeout=2700, unwindset=U04, tier="quick", bounds="BalancedParens borrowed_close_len100, 2 arbitrary words, all p,k <= 131"),
+        H("c04_bp_borrowed_open_len100", timeout=2700, unwindset=U04, tier="thorough", bounds="BalancedParens borrowed_open_len100, 2 arbitrary words, all p,k <= 131"),
+        H("c04_bp_borrowed_rank_len100", timeout=2700, unwindset=U04, tier="quick", bounds="BalancedParens borrowed_rank_len100, 2 arbitrary words, all p,k <= 131"),
+        H("c04_bp_borrowed_close_len65", timeout=2700, unwindset=U04, tier="thorough", bounds="BalancedParens borrowed_close_len65, 2 arbitrary words, all p,k <= 131"),
+        H("c04_bp_borrowed_rank_len65", timeout=2700, unwindset=U04, tier="thorough", bounds="BalancedParens borrowed_rank_len65, 2 arbitrary words, all p,k <= 131"),
         H("c04_bp_withselect_len100", timeout=2700, unwindset=U04, tier="thorough", bounds="WithSelect, len 100", replay="trace"),
         H("c04_bp_cspoppy_len100", timeout=2700, unwindset=U04, bounds="WithCsPoppy default rate, len 100", replay="trace"),
         H("c04_bp_cspoppy_rate1_len100", timeout=2700, unwindset=U04, tier="thorough", bounds="WithCsPoppy rate 1", replay="trace"),
